@@ -950,14 +950,25 @@ func replayLine(line string, fails map[string][]byte) (string, error) {
 		}
 		script = append(script, cmd{c.list[0].atom, i, k})
 	}
+	// script commands that are not applicable on this tree are skipped (a schedule recorded on another
+	// version of the code); afterwards the schedule is driven to quiescence without further cancellations
 	pos := 0
 	out := runSchedule(mode, reqs, genOpts{cancelMax: 99}, func(opts []cmd) (cmd, bool) {
-		if pos >= len(script) {
-			return cmd{}, false
+		for pos < len(script) {
+			c := script[pos]
+			pos++
+			for _, o := range opts {
+				if o == c {
+					return c, true
+				}
+			}
 		}
-		c := script[pos]
-		pos++
-		return c, true
+		for _, o := range opts {
+			if o.op != "cancel" {
+				return o, true
+			}
+		}
+		return cmd{}, false
 	})
 	return out, nil
 }
